@@ -516,7 +516,7 @@ theorem fail_flag (s : State) (w : String) : (s.fail w).flag.isSome = true := by
   unfold State.fail; split
   · rename_i h; simp [h]
   · rfl
-theorem same_enqueueOut (s : State) (b : Nat) (f : FragRef) : SameCM s (enqueueOut s b f) := ⟨rfl, rfl⟩
+theorem same_enqueueOut (s : State) (b : Nat) (e : QEntry) : SameCM s (enqueueOut s b e) := ⟨rfl, rfl⟩
 theorem same_dropTimeout (s : State) (f : FragRef) : SameCM s (dropTimeout s f) := ⟨rfl, rfl⟩
 
 theorem same_dial (S : Strs) (cfg : Cfg) (s : State) (p : Nat) : SameCM s (dial S cfg s p).1 := by
@@ -576,8 +576,8 @@ theorem cinvx_of_same (s s' : State) (o : Option Nat) (h : SameCM s s') (hi : CI
     client-side invariant -/
 def Good (s : State) : Prop := s.flag.isSome = true ∨ CInvX s none
 
-theorem foldl_enqueue_same (targets : List (Nat × Nat)) (id : Nat) (s : State) :
-    SameCM s (targets.foldl (fun st t => enqueueOut st t.2 (.frag id t.1)) s) := by
+theorem foldl_enqueue_same (targets : List (Nat × Nat)) (g : Nat × Nat → QEntry) (s : State) :
+    SameCM s (targets.foldl (fun st t => enqueueOut st t.2 (g t)) s) := by
   induction targets generalizing s with
   | nil => exact SameCM.refl s
   | cons t ts ih => exact SameCM.trans (same_enqueueOut s _ _) (ih _)
